@@ -10,7 +10,7 @@ spec = importlib.util.spec_from_loader("check", loader)
 chk = importlib.util.module_from_spec(spec)
 loader.exec_module(chk)
 
-ok, out = chk.run_go2coq()
+ok, out, _gf = chk.run_go2coq()
 print("go2coq:", "ok" if ok else out)
 files = chk.coq_files()
 ok, out = chk.coq_make([f[:-2] + ".vo" for f in files], timeout=3000)
